@@ -38,6 +38,9 @@ func (m *MessageClientKeyExchange) Marshal() (out []byte, err error) {
 	}
 
 	if m.IdentityHint != nil {
+		if len(m.IdentityHint) > 0xffff {
+			return nil, dtlserrors.ErrLengthMismatch
+		}
 		out = append([]byte{0x00, 0x00}, m.IdentityHint...)
 		binary.BigEndian.PutUint16(out, uint16(len(out)-2)) //nolint:gosec // G115
 	}
